@@ -2,6 +2,7 @@ import Proofs.MemSound
 import Model.Int32
 import Model.Generated
 import Proofs.Memory
+import Proofs.LatchExample
 /-!
 # C05 — latches: comparison inversion used for the inlined hold condition
 
